@@ -37,6 +37,9 @@ type COp struct {
 	Req     *Req      `json:"req,omitempty"`
 	Planted []Planted `json:"planted,omitempty"`
 	Reent   []ReentOp `json:"reentrant,omitempty"` // req only: operator calls made by the request's own task at a seam
+	// Rep > 1: the operator call is made that many times in a row (volume plans only:
+	// no preemption, so the whole series is atomic and equals one call)
+	Rep int `json:"rep,omitempty"`
 }
 
 type ReentOp struct {
@@ -116,85 +119,6 @@ func (c07) ProbeNeeds() map[string]string {
 }
 
 // ---------------------------------------------------------------- generation
-
-func varyCfg(r *R, a Cfg) Cfg {
-	b := a.clone()
-	if r.P(0.3) {
-		// the SMALLEST difference: one aspect, everything else equal - where "nothing
-		// changed, skip the swap" shortcuts go wrong
-		switch r.Intn(7) {
-		case 0: // Authorization next to the wildcard
-			hasStar, hasAuth := false, -1
-			for i, h := range b.RequestHeaders {
-				hasStar = hasStar || h == "*"
-				if strings.EqualFold(h, "authorization") {
-					hasAuth = i
-				}
-			}
-			switch {
-			case hasStar && hasAuth >= 0:
-				b.RequestHeaders = append(b.RequestHeaders[:hasAuth:hasAuth], b.RequestHeaders[hasAuth+1:]...)
-			case hasStar:
-				b.RequestHeaders = append(b.RequestHeaders, "Authorization")
-			default:
-				b.RequestHeaders = append(b.RequestHeaders, "X-One-More")
-			}
-		case 1:
-			b.MaxAge = pick(r, []int{a.MaxAge + 1, 0, -1, 5})
-		case 2:
-			b.Status = pick(r, []int{0, 200, 204, 299})
-		case 3:
-			if !(len(b.Methods) == 1 && b.Methods[0] == "*") {
-				b.Methods = append(b.Methods, "ONEMORE")
-			}
-		case 4:
-			if len(b.ResponseHeaders) > 0 && b.ResponseHeaders[0] != "*" {
-				b.ResponseHeaders = append(b.ResponseHeaders, "X-One-More-Exposed")
-			} else if !b.Credentialed {
-				b.ResponseHeaders = []string{"X-Only-Exposed"}
-			}
-		case 5:
-			if len(b.Origins) > 0 && b.Origins[0] != "*" {
-				b.Origins = append(b.Origins, "https://one-more.example.org")
-			}
-		case 6:
-			if !b.PNANoCors && !b.PNA {
-				star := false
-				for _, o := range b.Origins {
-					star = star || o == "*"
-				}
-				if !star {
-					b.PNA = true
-				}
-			}
-		}
-		return b
-	}
-	fresh := genCfg(r)
-	if r.P(0.6) {
-		b.Methods = fresh.Methods
-	}
-	if r.P(0.6) {
-		b.RequestHeaders = fresh.RequestHeaders
-	}
-	if r.P(0.5) {
-		b.MaxAge = fresh.MaxAge
-	}
-	if r.P(0.5) {
-		b.Status = fresh.Status
-	}
-	if r.P(0.4) && !b.Credentialed {
-		b.ResponseHeaders = fresh.ResponseHeaders
-	}
-	if r.P(0.3) && len(b.Origins) > 0 && b.Origins[0] != "*" {
-		p, insecure, psl := genPattern(r)
-		if !insecure || !(b.Credentialed || b.PNA || b.PNANoCors) || b.TolInsecure {
-			b.Origins = append(b.Origins, p)
-			b.TolPSL = b.TolPSL || psl
-		}
-	}
-	return b
-}
 
 func genOperatorOp(r *R, nCfg int) COp {
 	switch x := r.Intn(100); {
@@ -388,11 +312,89 @@ func (e c07) genSweep(seed, idx uint64) any {
 	return p
 }
 
+// genVolume: a sequential plan (no preemption): requests through the ONE handler every task
+// shares, then an operator task whose calls are repeated tens of thousands of times, then
+// requests through the same handler again. Small configurations (the repetitions are real calls).
+func (e c07) genVolume(r *R) any {
+	p := &C07Plan{}
+	n := r.Range(2, 3)
+	for i := 0; i < n; i++ {
+		p.Cfgs = append(p.Cfgs, makeSmall(genCfg(r)))
+	}
+	p.InitCfg = r.Intn(n+1) - 1
+	p.InitDebug = p.InitCfg >= 0 && r.P(0.5)
+	pool := discriminating(r, p.Cfgs)
+	client := func() CTask {
+		var t CTask
+		for _, q := range pool.pick(r, 3) {
+			q := q
+			t.Ops = append(t.Ops, COp{Kind: "req", Req: &q})
+		}
+		return t
+	}
+	var op CTask
+	big := pick(r, []int{32767, 32768, 32769, 65535, 65536, 65537})
+	for k := r.Range(1, 3); k > 0; k-- {
+		o := genOperatorOp(r, n)
+		switch o.Kind {
+		case "setdebug", "reconf_nil": // cheap calls: long series
+			o.Rep = pick(r, []int{1, 256, 300, big, big, big})
+		case "config":
+		default: // a Reconfigure that validates a configuration (hundreds of schedule points each): a few hundred
+			o.Rep = pick(r, []int{1, 255, 256, 257, 300, 300, 512})
+		}
+		op.Ops = append(op.Ops, o)
+	}
+	p.Tasks = []CTask{client(), op, client()}
+	if r.P(0.5) {
+		var op2 CTask
+		o := COp{Kind: "setdebug", Debug: r.P(0.5)}
+		if r.P(0.3) {
+			o = COp{Kind: "reconf_nil"}
+		}
+		o.Rep = pick(r, []int{1, 256, 700, 65536 - big + 1})
+		op2.Ops = append(op2.Ops, o)
+		p.Tasks = append(p.Tasks, op2, client())
+	}
+	for i := range p.Tasks {
+		p.Order = append(p.Order, i)
+	}
+	return p
+}
+
+func smallCfg(c Cfg) bool {
+	cc := c.Config()
+	return smallConfig(&cc)
+}
+
+// makeSmall cuts every list of c down (2 origins, 1 of everything else, no long strings).
+func makeSmall(c Cfg) Cfg {
+	c = c.clone()
+	cut := func(l []string, n int) []string {
+		var out []string
+		for _, s := range l {
+			if len(s) <= 64 && len(out) < n {
+				out = append(out, s)
+			}
+		}
+		return out
+	}
+	c.Origins, c.Methods, c.RequestHeaders, c.ResponseHeaders = cut(c.Origins, 2), cut(c.Methods, 1), cut(c.RequestHeaders, 1), cut(c.ResponseHeaders, 1)
+	if len(c.Origins) == 0 {
+		c.Origins = []string{"https://example.com"}
+	}
+	return c
+}
+
 func (e c07) Gen(r *R, tier string) any {
+	bgDisabled = true // (the dry runs below measure schedule points: nothing else may be going on)
 	allowHugeOriginLists = false
 	observeUnknownAPI = true
 	if r.Run%4 == 3 {
 		return e.genSweep(r.Seed, r.Run/4)
+	}
+	if r.Run%64 == 2 {
+		return e.genVolume(r)
 	}
 	p := &C07Plan{}
 	n := r.Range(2, 4)
@@ -567,6 +569,8 @@ type sched struct {
 	inCrit   map[int]bool
 	wrapped  []http.Handler // per task: handler wrapped once in the initial state
 	inner    []*delegateH
+	shared   http.Handler   // one handler wrapped once, used by all tasks
+	curInner []http.Handler // per task: what the shared handler's inner handler is while that task runs
 	// dry-run measurement
 	measure bool
 	counts  [][]int
@@ -748,7 +752,7 @@ func errStr(err error) string {
 // doOp executes one operator operation on m, recording it in the history.
 func (s *sched) doOp(task int, op COp) {
 	rec := func(kind, input string, f func() string) {
-		clockTick("an operator call")
+		betweenSteps("an operator call")
 		h := histOp{Task: task, Kind: kind, Input: input}
 		s.seq++
 		h.Call = s.seq
@@ -764,6 +768,24 @@ func (s *sched) doOp(task int, op COp) {
 		s.hist = append(s.hist, h)
 		s.c.logf("t%d %s %s -> %s [%d,%d]", task, kind, clip(input, 90), clip(h.Output, 120), h.Call, h.Ret)
 	}
+	if op.Rep > 512 && (op.Kind == "reconf" || op.Kind == "reconf_invalid" || op.Kind == "restore") {
+		op.Rep = 512 // (long series only of the cheap calls)
+	}
+	if op.Rep > 1 && len(s.p.Preempts) == 0 {
+		// volume: the call is made op.Rep-1 times here and once more, recorded, below
+		s.c.hit("F15_operator_call_repeated")
+		once := op
+		once.Rep = 0
+		saved, savedSeq := s.hist, s.seq
+		quiet := s.c.keepLog
+		s.c.keepLog = false
+		for i := 1; i < op.Rep; i++ {
+			s.doOp(task, once)
+			s.hist, s.seq = saved, savedSeq
+		}
+		s.c.keepLog = quiet
+		s.c.logf("t%d %s made %d times in a row", task, op.Kind, op.Rep)
+	}
 	switch op.Kind {
 	case "reconf", "reconf_invalid":
 		cfg := s.p.Cfgs[op.Cfg%len(s.p.Cfgs)]
@@ -771,18 +793,18 @@ func (s *sched) doOp(task int, op COp) {
 			cfg = plantAll(cfg, op.Planted)
 			s.c.hit("F1_rejected_reconfigure")
 		}
-		rec("reconf", cfg.String(), func() string { cc := cfg.Config(); return errStr(s.m.Reconfigure(&cc)) })
+		rec("reconf", cfg.String(), func() string { cc := cfg.Config(); return errStr(reconfN(s.m, &cc)) })
 	case "reconf_nil":
-		rec("reconf", "nil", func() string { return errStr(s.m.Reconfigure(nil)) })
+		rec("reconf", "nil", func() string { return errStr(reconfN(s.m, nil)) })
 	case "setdebug":
-		rec("setdebug", fmt.Sprint(op.Debug), func() string { s.m.SetDebug(op.Debug); return "" })
+		rec("setdebug", fmt.Sprint(op.Debug), func() string { setDebugN(s.m, op.Debug); return "" })
 	case "config":
 		rec("config", "", func() string { return cfgKey(fromConfig(s.m.Config())) })
 	case "restore":
 		s.c.hit("F2_restore")
 		var got *cors.Config
 		rec("config", "", func() string { got = s.m.Config(); return cfgKey(fromConfig(got)) })
-		rec("reconf", cfgKey(fromConfig(got)), func() string { return errStr(s.m.Reconfigure(got)) })
+		rec("reconf", cfgKey(fromConfig(got)), func() string { return errStr(reconfN(s.m, got)) })
 	}
 }
 
@@ -824,7 +846,7 @@ func (h seamHandler) ServeHTTP(w http.ResponseWriter, _ *http.Request) {
 
 func (s *sched) doReq(task int, op COp) {
 	q := *op.Req
-	clockTick("a request")
+	betweenSteps("a request")
 	h := histOp{Task: task, Kind: "req", Input: q.String()}
 	s.seq++
 	h.Call = s.seq
@@ -865,10 +887,17 @@ func (s *sched) doReq(task int, op COp) {
 		// odd requests of a task go through the task's long-lived wrapped handler
 		// (Wrap called once, before the run started), even ones through a fresh Wrap
 		inner := seamHandler{s, task, op.Reent, &invoked, &wnote}
-		if t := s.tasks[task]; t.opIdx%2 == 1 && s.wrapped[task] != nil {
+		switch t := s.tasks[task]; {
+		case t.opIdx%3 == 1 && s.wrapped[task] != nil:
 			s.inner[task].h = inner
 			s.wrapped[task].ServeHTTP(w, q.build())
-		} else {
+		case t.opIdx%3 == 2 && s.shared != nil:
+			// ONE handler wrapped before the run started serves requests of every task, as a
+			// server's does (whatever it may remember between two requests is remembered
+			// across everything the other tasks did in between)
+			s.curInner[task] = inner
+			s.shared.ServeHTTP(w, q.build())
+		default:
 			s.m.Wrap(inner).ServeHTTP(w, q.build())
 		}
 	})
@@ -951,6 +980,8 @@ func newSched(p *C07Plan, c *Ctx, measure bool) (*sched, bool) {
 		s.counts = append(s.counts, make([]int, len(p.Tasks[i].Ops)))
 		s.classes = append(s.classes, make([][]string, len(p.Tasks[i].Ops)))
 	}
+	s.curInner = make([]http.Handler, len(p.Tasks))
+	s.shared = m.Wrap(http.HandlerFunc(func(w http.ResponseWriter, r *http.Request) { s.curInner[s.cur].ServeHTTP(w, r) }))
 	return s, true
 }
 
@@ -1165,6 +1196,26 @@ var reqTable map[string]Req
 func (e c07) Exec(plan any, c *Ctx) *Violation {
 	observeUnknownAPI = true
 	p := plan.(*C07Plan)
+	// background activity (background.go) only in runs without preemptions and re-entrant
+	// calls: there every operation is atomic, so repeating it is a no-op by the documentation
+	for _, t := range p.Tasks {
+		for _, op := range t.Ops {
+			if len(op.Reent) > 0 {
+				bgDisabled = true
+			}
+		}
+	}
+	if len(p.Preempts) > 0 {
+		bgDisabled = true
+	}
+	bg.vol = false // series of operator calls are written down in the volume plans (genVolume); every call here costs hundreds of schedule points
+	for _, t := range p.Tasks {
+		for _, op := range t.Ops {
+			if op.Rep > 1 { // a volume plan has its series written down: no further ones on top
+				bgDisabled = true
+			}
+		}
+	}
 	s, ok := newSched(p, c, false)
 	if !ok {
 		c.hit("generator_rejected")
@@ -1284,6 +1335,16 @@ func (c07) Shrink(plan any) []any {
 		q.Preempts = append([]Preempt{}, p.Preempts...)
 		q.Order = append([]int{}, p.Order...)
 		return &q
+	}
+	// a single call instead of a series
+	for ti, t := range p.Tasks {
+		for oi, op := range t.Ops {
+			if op.Rep > 1 {
+				q := cp()
+				q.Tasks[ti].Ops[oi].Rep = 0
+				out = append(out, q)
+			}
+		}
 	}
 	// drop preemptions
 	for i := range p.Preempts {
